@@ -3,15 +3,17 @@ import OmbottModel.Model.EnvCache
 The cache-free reference for `Model/EnvCache.lean`: what a brand-new request object built from the
 CURRENT environ answers.
 
-* Nothing is memoised: every read recomputes from the WSGI strings of the environ.  `erase` is the
-  environ of such a brand-new request: the current one without the `ombott.request.*` cache
-  entries.
+* Nothing is memoised.  Every cached property is described by what it is a function OF
+  (`desc`): either of the WSGI strings of the environ alone (`SpecDesc.pure`, with the list of keys
+  it reads), or of those strings and the buffered request body (`SpecDesc.viaBody`: whether the
+  body is needed at all, the answer without it, the answer from it).  `erase` is the environ of a
+  brand-new request: the current one without the `ombott.request.*` cache entries.
 * The request body is not a cache but state (C04, `replaced_stream_exact` / `body_repeatable`): the
   stream can be consumed once, so the buffered body (`ombott.request.body`, which also replaces
   `wsgi.input`) and the remembered read error (`ombott.request.body.error`) are part of the current
-  environ; they change only when the body is first needed and when `wsgi.input` is assigned.  The
-  framing headers are looked at when the stream is consumed, `CONTENT_LENGTH` and `CONTENT_TYPE`
-  again, as they are NOW, whenever the form text / JSON is cut out of the buffered body.
+  environ; they change only when the body is first needed (`spBody`) and when `wsgi.input` is
+  assigned.  The framing headers are looked at when the stream is consumed; `CONTENT_LENGTH` and
+  `CONTENT_TYPE` again, as they are NOW, whenever form text / JSON is cut out of the buffered body.
 * A header view shows the environ of the request it is read from.
 -/
 namespace Ombott.EnvCache
@@ -23,9 +25,6 @@ def isCacheKey (k : Key) : Bool :=
   cs!"ombott.request.".isPrefixOf k && !(k = kBody) && !(k = kBodyError)
 
 def erase (e : Env) : Env := e.filter fun p => !isCacheKey p.1
-
-/-- a property that is a function of the WSGI strings -/
-def pureRd (f : Env → Except Exc Val) : M Val := fun s => (f s.env, s)
 
 /-- `_body`: the buffered body if there is one, the remembered error if there is one, else the
 stream behind `wsgi.input` is consumed under the framing headers as they are now -/
@@ -40,85 +39,128 @@ def spBody (cfg : Cfg) : M Val := cacheIn kBody fun s =>
       | .error e => (.error e, s)
       | .ok cl => bodyPost cfg id cl s
 
-/-- the form text / JSON text: the first `CONTENT_LENGTH` bytes of the buffered body -/
-def spBodyString (cfg : Cfg) : M Bytes := do
-  let b ← spBody cfg
-  let (sk, _) ← liftE (asBody b)
-  let cl ← pureRd contentLengthOf
-  let cl ← liftE (asInt cl)
-  liftE (bodyStringFrom cfg sk cl)
+/-! ### what each property is a function of -/
 
-def spCtype (e : Env) : Except Exc Val := ctypeFrom (contentTypeOf e)
+def kCL : Key := cs!"CONTENT_LENGTH"
+def kCT : Key := cs!"CONTENT_TYPE"
+def kQS : Key := cs!"QUERY_STRING"
 
-def spJson (cfg : Cfg) (L : Lib) : M Val := do
-  let ct ← pureRd spCtype
-  let ct ← liftE (asStrs ct)
-  if ct.head? = some cs!"application/json" then
-    let b ← spBodyString cfg
-    liftE (jsonFrom cfg L b)
-  else pure .none
+/-- the form text / JSON text: the first `CONTENT_LENGTH` (as it is now) bytes of the buffered body -/
+def bodyStringOf (cfg : Cfg) (e : Env) (sk : Sink) : Except Exc Bytes :=
+  ((contentLengthOf e).bind asInt).bind (bodyStringFrom cfg sk)
 
-/-- one run of `POST` on a brand-new request: `(post, forms, files)` when it succeeds -/
-def spPostRun (cfg : Cfg) (L : Lib) : M (FD × FD × FD) := do
-  let ct ← pureRd fun e => .ok (contentTypeOf e)
-  let ct ← liftE (asStr ct)
-  if ¬ startsWithS ct cs!"multipart/" then
-    let post ←
-      if startsWithS ct cs!"application/json" then do
-        let data ← spJson cfg L
-        liftE (postOfJson cfg data)
-      else do
-        let b ← spBodyString cfg
-        liftE (postOfUrlencoded b)
-    pure (post, post, [])
-  else
-    let b ← spBody cfg
-    let (sk, ctLoad) ← liftE (asBody b)
+def ctypeOf (e : Env) : Except Exc Val := ctypeFrom (contentTypeOf e)
+
+/-- `self.ctype[0] == 'application/json'` -/
+def needJson (e : Env) : Bool :=
+  match (ctypeOf e).bind asStrs with
+  | .ok l => l.head? = some cs!"application/json"
+  | .error _ => false
+
+def jsonK (cfg : Cfg) (L : Lib) (e : Env) (sk : Sink) : Except Exc Val :=
+  (bodyStringOf cfg e sk).bind (jsonFrom cfg L)
+
+def ctLower (e : Env) : Str := lower ((e.str? kCT).getD [])
+
+/-- does one run of `POST` need the body? (not when the type merely starts with
+`application/json`: `json` is `None` then and the mapping stays empty) -/
+def needPost (e : Env) : Bool :=
+  if startsWithS (ctLower e) cs!"multipart/" then true
+  else if startsWithS (ctLower e) cs!"application/json" then needJson e
+  else true
+
+def dup (p : FD) : FD × FD × FD := (p, p, [])
+
+/-- one run of `POST` that does not need the body: `(post, forms, files)` -/
+def postK0 (cfg : Cfg) (_e : Env) : Except Exc (FD × FD × FD) := (postOfJson cfg .none).map dup
+
+/-- one run of `POST` on the buffered body `sk` whose markup was built for `ctLoad` -/
+def postK (cfg : Cfg) (L : Lib) (e : Env) (sk : Sink) (ctLoad : Str) : Except Exc (FD × FD × FD) :=
+  if startsWithS (ctLower e) cs!"multipart/" then
     match (match boundaryOf ctLoad with
            | Option.none => MpOut.noMarkup
            | some bnd => L.multipart bnd sk.body cfg.memfile) with
-    | .noMarkup => M.fail (mapped cfg .bodyParsingError)
-    | .markupError e => M.fail (parsingError cfg (.py e))
+    | .noMarkup => .error (mapped cfg .bodyParsingError)
+    | .markupError x => .error (parsingError cfg (.py x))
     | .collected forms files post exc =>
       match exc with
-      | Option.none => pure (post, forms, files)
-      | some e => M.fail (if caughtByPost e then parsingError cfg e else e)
+      | Option.none => .ok (post, forms, files)
+      | some x => .error (if caughtByPost x then parsingError cfg x else x)
+  else if startsWithS (ctLower e) cs!"application/json" then
+    ((jsonK cfg L e sk).bind (postOfJson cfg)).map dup
+  else ((bodyStringOf cfg e sk).bind postOfUrlencoded).map dup
 
-def spFullpath (cfg : Cfg) (L : Lib) (e : Env) : Except Exc Val :=
+def fullpathOf (cfg : Cfg) (L : Lib) (e : Env) : Except Exc Val :=
   (asStr (scriptNameOf cfg e)).map (fullpathFrom cfg L e)
 
-def spUrlparts (cfg : Cfg) (L : Lib) (e : Env) : Except Exc Val :=
-  ((spFullpath cfg L e).bind asStr).map (urlpartsFrom L e)
+def urlpartsOf (cfg : Cfg) (L : Lib) (e : Env) : Except Exc Val :=
+  ((fullpathOf cfg L e).bind asStr).map (urlpartsFrom L e)
 
-def spUrl (cfg : Cfg) (L : Lib) (e : Env) : Except Exc Val := (spUrlparts cfg L e).bind (urlFrom L)
+def urlOf (cfg : Cfg) (L : Lib) (e : Env) : Except Exc Val := (urlpartsOf cfg L e).bind (urlFrom L)
 
-def spParams (cfg : Cfg) (L : Lib) : M Val := do
-  let q ← pureRd queryOf
-  let q ← liftE (asDict q)
-  let (_, f, _) ← spPostRun cfg L
-  pure (.dict (mergeDicts q f))
+/-- `FormsDict(self.query, **self.forms)` -/
+def paramsFrom (e : Env) (t : FD × FD × FD) : Except Exc Val :=
+  ((queryOf e).bind asDict).map fun q => .dict (mergeDicts q t.2.1)
+
+inductive SpecDesc
+  /-- a function of the WSGI strings under `reads` -/
+  | pure (reads : List Key) (f : Env → Except Exc Val)
+  /-- a function of the WSGI strings under `reads` and, when `need`, of the buffered body -/
+  | viaBody (reads : List Key) (need : Env → Bool) (k0 : Env → Except Exc Val)
+      (k : Env → Sink → Str → Except Exc Val)
+  /-- the body itself, the header view, and the attributes only the framework sets -/
+  | special
+
+def urlKeys : List Key :=
+  [cs!"HTTP_X_FORWARDED_PROTO", cs!"wsgi.url_scheme", cs!"HTTP_X_FORWARDED_HOST", cs!"HTTP_HOST",
+   cs!"SERVER_NAME", cs!"SERVER_PORT", kQS]
+def pathKeys : List Key := [cs!"SCRIPT_NAME", cs!"HTTP_X_SCRIPT_NAME", [], cs!"PATH_INFO"]
+
+def desc (cfg : Cfg) (L : Lib) : Prop' → SpecDesc
+  | .app | .route | .urlArgs | .headers | .body => .special
+  | .cookies => .pure [cs!"HTTP_COOKIE"] (cookiesOf L)
+  | .scriptName => .pure [cs!"SCRIPT_NAME", cs!"HTTP_X_SCRIPT_NAME"] fun e => .ok (scriptNameOf cfg e)
+  | .fullpath => .pure pathKeys (fullpathOf cfg L)
+  | .urlparts => .pure (pathKeys ++ urlKeys) (urlpartsOf cfg L)
+  | .url => .pure (pathKeys ++ urlKeys) (urlOf cfg L)
+  | .isJsonRequested => .pure [cs!"HTTP_ACCEPT"] fun e => .ok (isJsonOf e)
+  | .remoteRoute => .pure [cs!"HTTP_X_FORWARDED_FOR", cs!"REMOTE_ADDR"] fun e => .ok (remoteRouteOf e)
+  | .contentLength => .pure [kCL] contentLengthOf
+  | .contentType => .pure [kCT] fun e => .ok (contentTypeOf e)
+  | .ctype => .pure [kCT] ctypeOf
+  | .query => .pure [kQS] queryOf
+  | .json => .viaBody [kCT, kCL] needJson (fun _ => .ok .none) (fun e sk _ => jsonK cfg L e sk)
+  | .post => .viaBody [kCT, kCL] needPost (fun e => (postK0 cfg e).map fun t => .dict t.1)
+      (fun e sk ct => (postK cfg L e sk ct).map fun t => .dict t.1)
+  | .forms => .viaBody [kCT, kCL] needPost (fun e => (postK0 cfg e).map fun t => .dict t.2.1)
+      (fun e sk ct => (postK cfg L e sk ct).map fun t => .dict t.2.1)
+  | .files => .viaBody [kCT, kCL] needPost (fun e => (postK0 cfg e).map fun t => .dict t.2.2)
+      (fun e sk ct => (postK cfg L e sk ct).map fun t => .dict t.2.2)
+  | .params => .viaBody [kCT, kCL, kQS] needPost (fun e => (postK0 cfg e).bind (paramsFrom e))
+      (fun e sk ct => (postK cfg L e sk ct).bind (paramsFrom e))
+
+/-- a property computed from the strings and, if needed, the body -/
+def viaBody (cfg : Cfg) (need : Env → Bool) (k0 : Env → Except Exc Val)
+    (k : Env → Sink → Str → Except Exc Val) : M Val := fun s =>
+  if need s.env then
+    match spBody cfg s with
+    | (.error x, s') => (.error x, s')
+    | (.ok b, s') =>
+      match asBody b with
+      | .error x => (.error x, s')
+      | .ok (sk, ct) => (k s'.env sk ct, s')
+  else (k0 s.env, s)
 
 /-- attribute `p` read on a brand-new request whose environ is the current one -/
-def specRead (cfg : Cfg) (L : Lib) : Prop' → M Val
-  | .app | .route | .urlArgs => M.fail (.py .runtimeError)
-  | .headers => fun s => (.ok (.view s.self), s)
-  | .cookies => pureRd (cookiesOf L)
-  | .params => spParams cfg L
-  | .url => pureRd (spUrl cfg L)
-  | .urlparts => pureRd (spUrlparts cfg L)
-  | .fullpath => pureRd (spFullpath cfg L)
-  | .scriptName => pureRd fun e => .ok (scriptNameOf cfg e)
-  | .isJsonRequested => pureRd fun e => .ok (isJsonOf e)
-  | .remoteRoute => pureRd fun e => .ok (remoteRouteOf e)
-  | .contentLength => pureRd contentLengthOf
-  | .contentType => pureRd fun e => .ok (contentTypeOf e)
-  | .ctype => pureRd spCtype
-  | .query => pureRd queryOf
-  | .json => spJson cfg L
-  | .post => do let (p, _, _) ← spPostRun cfg L; pure (.dict p)
-  | .forms => do let (_, f, _) ← spPostRun cfg L; pure (.dict f)
-  | .files => do let (_, _, f) ← spPostRun cfg L; pure (.dict f)
-  | .body => spBody cfg
+def specRead (cfg : Cfg) (L : Lib) (p : Prop') : M Val :=
+  match desc cfg L p with
+  | .pure _ f => fun s => (f s.env, s)
+  | .viaBody _ need k0 k => viaBody cfg need k0 k
+  | .special =>
+    match p with
+    | .headers => fun s => (.ok (.view s.self), s)
+    | .body => spBody cfg
+    | _ => M.fail (.py .runtimeError)
 
 /-- one operation on the reference machine: reads recompute; assignment, deletion and copy are
 those of the request object (on an environ without cache entries they touch the body state only) -/
